@@ -95,7 +95,7 @@ func (fc *FuncContract) clauses(kind string) []*Clause {
 var clauseKeywords = map[string]bool{
 	"requires": true, "ensures": true, "invariant": true, "step": true, "decreases": true,
 	"modifies": true, "func": true, "spec": true, "loop": true, "inline": true, "trusted": true,
-	"ufun": true, "ghost": true, "option": true, "canary": true, "axiom": true, "lemma": true, "pure": true, "assume": true, "end": true,
+	"ufun": true, "ghost": true, "option": true, "canary": true, "callpre": true, "axiom": true, "lemma": true, "pure": true, "assume": true, "end": true,
 }
 
 // parseContractFile reads //@ lines.
@@ -162,7 +162,7 @@ func parseContractFile(path string) (*ContractFile, error) {
 			}
 			curLoop = &LoopContract{Ordinal: ord, Hint: hint}
 			curFunc.Loops[ord] = curLoop
-		case "requires", "ensures", "invariant", "step", "decreases", "assume", "canary":
+		case "requires", "ensures", "invariant", "step", "decreases", "assume", "canary", "callpre":
 			label, text := "", rest
 			if strings.HasPrefix(rest, "[") {
 				end := strings.Index(rest, "]")
